@@ -7,7 +7,9 @@ META = {
             "whitespace-padded token text, minify = the unpadded text (strings verbatim); the client always "
             "recovers the body whether or not gzip is applied. The model is tied to the code by a differential "
             "run of JSONMinify / WriteJSON against the model on generated texts and values, and a model-free "
-            "oracle (json.Unmarshal of the response equals the handler's value).",
+            "oracle (json.Unmarshal of the response equals the handler's value) over every JSON response writer of "
+            "internal/util (WriteJSON, ErrorResponse, the composed MarshalIndent+JSONMinify+WriteMaybeCompressed path) "
+            "on hostile values.",
     "note": "trusted: Lean kernel; Go encoding/json + compress/gzip as reference decoders; the correspondence "
             "harness; JSON lexical structure as stated in Props.lean (tokens = strings | single non-space chars). "
             "Modelled, not verified: json.MarshalIndent output shape, gzip (hypothesis gunzip∘gzip = id).",
@@ -41,7 +43,14 @@ def run(ctx):
         "distinct_nontrivial": c.get("distinct_nontrivial", 0),
         "rule": "token texts: random token lists (strings with escapes/backslashes/quotes/Unicode, atoms) with Unicode-whitespace gaps; "
                 "non-trivial = contains an escape or whitespace inside a string; raw = arbitrary strings over a hostile alphabet; "
-                "val = random JSON values through util.WriteJSON with gzip on/off and 8 threshold settings",
+                "val = random JSON values through util.WriteJSON with gzip on/off and 8 threshold settings; "
+                "wr = hostile handler values (strings/keys made of escape lookalikes such as backslash-n, backslash-u-XXXX with 0..3 "
+                "leading backslashes, quotes, controls, HTML characters, U+2028/9, invalid UTF-8, JSON punctuation; int64/uint64/float64 "
+                "limits and json.Number literals; maps, slices, tagged structs, json.RawMessage) through every JSON response writer of "
+                "internal/util (WriteJSON, ErrorResponse, MarshalIndent+JSONMinify+WriteMaybeCompressed) with gzip accepted or not and "
+                "8 threshold settings; oracle: gunzip(body) decodes (UseNumber, no trailing data) to what encoding/json.Marshal(value) "
+                "decodes to; failing values are shrunk; their MarshalIndent texts are also 'min' correspondence lines "
+                "(counted non-trivial when the text contains a backslash)",
         "samples": st.get("samples", []),
         "counters": c,
     })
